@@ -80,6 +80,10 @@ func runC06(c *eng.Ctx) {
 	reset(cgT+".SetConsumedSeq", cgMu, []string{cgT + ".consumedSeq"}, "seq")
 
 	// ---- consumerGroup.consume ---------------------------------------------------------------
+	// ---- 1b. a failed page acquisition leaves the write cursor where it was (rule shared with C05): a retried append must not
+	// overwrite messages a group has not acknowledged ---------------------------------------------------------------------------------
+	c.Rule("GUARD", "pkg/queue.queue{failed page acquisition leaves the cursor}", func() { failedAcquireLeavesCursor(c) })
+
 	c.Rule("GUARD", cgT+".consume", func() {
 		f := c.Fn(cgT + ".consume")
 		st := c.One(f, eng.StoreField(cgT+".consumedSeq"), "store to consumedSeq")
